@@ -4,7 +4,7 @@ SPEC = {
     'check_imports': 'From Coq Require Import List NArith ZArith String Ascii Bool.\nFrom C33 Require Import Lib.Harness C07.Model C07.Check C08.Model.\n',
     'allowed_axioms': [],
     'shard': 40,
-    'rule': 'histories of 4..80 operations (short ones first) over a base database (GoMemDB, every 4th an on-disk GoLevelDB) '
+    'rule': 'histories of 4..50 (thorough: 4..80) operations (short ones first) over a base database (GoMemDB, every 4th an on-disk GoLevelDB) '
             'pre-populated from a pool of 2..7 keys over the alphabet {00, a, b, ff} (half of the pool stored, 1/8 of those with an '
             'empty value), through db.NewLocalDB (every 9th history in read-only mode): Begin 10%, Commit 7%, Rollback 7%, '
             'Set 26% (30% with a nil value = delete; keys from the pool, 1/8 fresh), Get 20%, List 22% (prefixes "", a, ab, ff, a ff, b; '
